@@ -326,16 +326,10 @@ func CodeQuoteBegin(l *lexer) stateFn {
 }
 */
 func DirectiveUnionState(l *lexer) stateFn {
-	//skip space
-	for {
-		r := l.next()
-		if r != ' ' && r != '\t' {
-			break
-		}
-	}
-	l.backup()
+	//skip space, line breaks and comments
+	l.skipLayout()
 	level := 0
-	if !l.acceptWord("{") {
+	if l.next() != '{' {
 		l.error("union directive need { to start")
 		return nil
 	}
@@ -510,12 +504,37 @@ func (l *lexer) acceptWord(word string) bool {
 			return false
 		}
 	}
-	if r = l.peek(); r != ' ' && r != '\t' && r != '\n' && r != eof {
+	if r = l.peek(); r != ' ' && r != '\t' && r != '\n' && r != eof &&
+		!strings.HasPrefix(l.input[l.end:], "//") && !strings.HasPrefix(l.input[l.end:], "/*") {
 		l.end, l.loc, l.prev = pos, loc, prev
 		return false
 	}
 
 	return true
+}
+
+// skipLayout skips blanks, tabs, line breaks and comments.
+func (l *lexer) skipLayout() {
+	for {
+		switch {
+		case strings.HasPrefix(l.input[l.end:], "//"):
+			for r := l.next(); r != '\n' && r != eof; r = l.next() {
+			}
+		case strings.HasPrefix(l.input[l.end:], "/*"):
+			if i := strings.Index(l.input[l.end+2:], "*/"); i >= 0 {
+				for n := l.end + 2 + i + 2; l.end < n; {
+					l.next()
+				}
+			} else {
+				return
+			}
+		default:
+			if r := l.peek(); r != ' ' && r != '\t' && r != '\n' {
+				return
+			}
+			l.next()
+		}
+	}
 }
 
 func (l *lexer) error(format string, args ...interface{}) stateFn {
